@@ -3,6 +3,7 @@ package main
 import (
 	"fmt"
 	"go/token"
+	"go/types"
 
 	"golang.org/x/tools/go/ssa"
 )
@@ -665,12 +666,42 @@ func firstOpen(v ssa.Value, n *Normer, depth int) ssa.Value {
 	case *ssa.Convert:
 		return firstOpen(x.X, n, depth+1)
 	case *ssa.UnOp:
+		if st := reachingStore(x); st != nil {
+			return firstOpen(st.Val, n, depth+1) // a patched local: the value this read sees
+		}
 		return firstOpen(x.X, n, depth+1)
 	case *ssa.ChangeType:
 		return firstOpen(x.X, n, depth+1)
 	case *ssa.Index:
 		// an element selected by a computed position
-		return firstOpen(x.Index, n, depth+1)
+		if p := firstOpen(x.Index, n, depth+1); p != nil {
+			return p
+		}
+		if ld, ok := x.X.(*ssa.UnOp); ok && ld.Op == token.MUL {
+			if g, ok := ld.X.(*ssa.Global); ok {
+				if tp := smallTablePos(n, g, x.Index); tp != nil {
+					return tp
+				}
+			}
+		}
+		return nil
+	case *ssa.IndexAddr:
+		if p := firstOpen(x.Index, n, depth+1); p != nil {
+			return p
+		}
+		if g, ok := x.X.(*ssa.Global); ok {
+			if tp := smallTablePos(n, g, x.Index); tp != nil {
+				return tp
+			}
+		}
+		if ld, ok := x.X.(*ssa.UnOp); ok && ld.Op == token.MUL {
+			if g, ok := ld.X.(*ssa.Global); ok {
+				if tp := smallTablePos(n, g, x.Index); tp != nil {
+					return tp
+				}
+			}
+		}
+		return nil
 	case *ssa.Lookup:
 		return firstOpen(x.Index, n, depth+1)
 	case *ssa.Call, *ssa.Extract:
@@ -687,6 +718,36 @@ func firstOpen(v ssa.Value, n *Normer, depth int) ssa.Value {
 		}
 	}
 	return nil
+}
+
+// tablePos: a choice point of firstOpen - the position at which a small immutable package-level table
+// (array or slice literal of at most 8 entries) is read. The read selects one of the entries; a
+// position outside the table panics, so the entries are the only alternatives.
+type tablePos struct {
+	ssa.Value // the position
+	N         int
+}
+
+func smallTablePos(n *Normer, g *ssa.Global, idx ssa.Value) *tablePos {
+	if _, isK := n.Norm(idx).IsConst(); isK {
+		return nil
+	}
+	if !n.P.immutableGlobal(g) {
+		return nil
+	}
+	N := 0
+	switch t := g.Type().Underlying().(*types.Pointer).Elem().Underlying().(type) {
+	case *types.Array:
+		N = int(t.Len())
+	case *types.Slice:
+		if v, err := n.P.EvalVar(shortName(g.Pkg.Pkg.Path()), g.Name()); err == nil && v != nil && v.Kind == VList {
+			N = len(v.List)
+		}
+	}
+	if N < 2 || N > 8 {
+		return nil
+	}
+	return &tablePos{idx, N}
 }
 
 // isMinMax: the builtin min or max applied to two integers.
@@ -768,6 +829,27 @@ func (n *Normer) valueCases(fn *ssa.Function, from *ssa.BasicBlock, v ssa.Value,
 				rec(cAnd(cond, cc), decided+1)
 				n.env = n.env[:len(n.env)-1]
 			}
+			return
+		}
+		if tp, ok := open.(*tablePos); ok && decided < 6 {
+			// the table entry read: entry k when the position is k; the last entry when it is none of
+			// the others (a position outside the table does not return)
+			pos := n.Norm(tp.Value)
+			savedFold := n.FoldTables
+			n.FoldTables = true
+			others := cTrue
+			for k := 0; k < tp.N; k++ {
+				cc := cmpCond(token.EQL, pos, pConst(int64(k)))
+				if k == tp.N-1 {
+					cc = others
+				} else {
+					others = cAnd(others, cNot(cc))
+				}
+				n.env = append(n.env, map[ssa.Value]Poly{tp.Value: pConst(int64(k))})
+				rec(cAnd(cond, cc), decided+1)
+				n.env = n.env[:len(n.env)-1]
+			}
+			n.FoldTables = savedFold
 			return
 		}
 		phi, _ := open.(*ssa.Phi)
@@ -873,6 +955,39 @@ func checkCasesUnder(c *Ctx, R, key string, pos token.Pos, cases []valCase, spec
 				ok = true
 			} else {
 				why = fmt.Sprintf("value %s arises under %s, expected under %s (differs at %s)", cs.val, cs.cond, want, w)
+			}
+		}
+		c.Check(R, fmt.Sprintf("%s/case%d", key, si), pos, ok, fmt.Sprintf("%s when %s", sp.val, sp.cond), map[bool]string{true: "ok", false: why}[ok])
+	}
+	for ci, cs := range cases {
+		if !used[ci] {
+			c.Check(R, fmt.Sprintf("%s/extra%d", key, ci), pos, false, "only the expected alternatives", fmt.Sprintf("%s when %s", cs.val, cs.cond))
+		}
+	}
+}
+
+// caseSpec / checkCasesC: checkCases with the expected alternatives given as values and conditions
+// (for atoms that are not Go expressions).
+type caseSpec struct {
+	val  Poly
+	cond *Cond
+}
+
+func checkCasesC(c *Ctx, R, key string, pos token.Pos, cases []valCase, specs []caseSpec) {
+	used := make([]bool, len(cases))
+	for si, sp := range specs {
+		ok := false
+		why := "no alternative with value " + sp.val.String()
+		for ci, cs := range cases {
+			if !pEqual(cs.val, sp.val) {
+				continue
+			}
+			used[ci] = true
+			eq, w := CondEquivalent(cs.cond, sp.cond)
+			if eq {
+				ok = true
+			} else {
+				why = fmt.Sprintf("value %s arises under %s, expected under %s (differs at %s)", cs.val, cs.cond, sp.cond, w)
 			}
 		}
 		c.Check(R, fmt.Sprintf("%s/case%d", key, si), pos, ok, fmt.Sprintf("%s when %s", sp.val, sp.cond), map[bool]string{true: "ok", false: why}[ok])
